@@ -170,15 +170,16 @@ class _LossFn(StubObj):
         return self._fn(*a, **k)
 
 
-def data_case(prog, perm, max_patience, return_best, with_condition=False, issues=None):
-    """One scripted run of fit_to_data: max_epochs = len(perm), the validation loss of epoch e is Ord(perm[e]), one
-    training batch and one validation batch per epoch.  Data-handling observations (which split a batch comes from, the
+def data_case(prog, perm, max_patience, return_best, with_condition=False, issues=None, nb=1):
+    """One scripted run of fit_to_data: max_epochs = len(perm), nb training and nb validation batches per epoch; the
+    validation loss of epoch e is Ord(perm[e]) (nb == 1) or has batch losses 10 * perm[e] + j whose mean keeps the
+    ordering (nb > 1, numeric tokens on which only sums and division by a count are defined).  Data-handling observations (which split a batch comes from, the
     pairing of x and condition, the keys) are appended to `issues`; they do not stop the run.
     -> (returned params token, losses dict, P, number of steps, number of validations)."""
     E = len(perm)
     issues = [] if issues is None else issues
-    P = [Tok(f"params{i}") for i in range(E + 1)]
-    O = [Tok(f"opt_state{i}") for i in range(E + 1)]
+    P = [Tok(f"params{i}") for i in range(E * nb + 1)]
+    O = [Tok(f"opt_state{i}") for i in range(E * nb + 1)]
     STATIC = Tok("static")
     m = prog.modules["flowjax.train.data_fit"]
     ev = Evaluator(prog, module=m, max_steps=400000)
@@ -217,7 +218,7 @@ def data_case(prog, perm, max_patience, return_best, with_condition=False, issue
         if len(pk) > 1:
             issues.append(f"the arrays {arrays!r} of one epoch are shuffled with different keys {sorted(pk)}: x and condition "
                           f"rows no longer correspond")
-        return tuple([Batch(a.name)] for a in arrays)
+        return tuple([Batch(a.name) for _ in range(nb)] for a in arrays)
 
     def check_batch(batch, split, what):
         want = [f"{split}[{i}]" for i in range(n_arr)]
@@ -227,30 +228,31 @@ def data_case(prog, perm, max_patience, return_best, with_condition=False, issue
 
     def step(params, static, *batch, optimizer=None, opt_state=None, loss_fn=None, key=None, **kw):
         i = len(steps)
-        if i >= E:
-            raise Mismatch(f"a {i + 1}-th training step is taken although max_epochs={E}")
-        if len(vals) != i:
-            raise Mismatch(f"epoch {i + 1} trains before epoch {i} was validated")
+        ep = i // nb
+        if ep >= E:
+            raise Mismatch(f"training step {i + 1} is taken although max_epochs={E} (x {nb} batches)")
+        if len(vals) != ep * nb:
+            raise Mismatch(f"epoch {ep + 1} trains before epoch {ep} was (fully) validated")
         if params is not P[i]:
-            raise Mismatch(f"the training step of epoch {i + 1} is given {params!r}, the current parameters are {P[i]!r}")
+            raise Mismatch(f"training step {i + 1} (epoch {ep + 1}) is given {params!r}, the current parameters are {P[i]!r}")
         if opt_state is not O[i]:
-            raise Mismatch(f"the training step of epoch {i + 1} is given {opt_state!r}, the current optimiser state is {O[i]!r}")
-        check_batch(batch, "train", f"the training step of epoch {i + 1}")
-        keys_used.append((f"step of epoch {i + 1}", key))
+            raise Mismatch(f"training step {i + 1} (epoch {ep + 1}) is given {opt_state!r}, the current optimiser state is {O[i]!r}")
+        check_batch(batch, "train", f"the training step {i + 1} (epoch {ep + 1})")
+        keys_used.append((f"training step {i + 1}", key))
         steps.append(params)
-        return (P[i + 1], O[i + 1], Ord(1000 + i))
+        return (P[i + 1], O[i + 1], Ord(1000 + i) if nb == 1 else NumOrd(1000.0 + i))
 
     def loss_fn(params, static, *batch, key=None, **kw):
-        e = len(vals)
-        if e >= E or len(steps) != e + 1:
-            raise Mismatch(f"the validation loss is evaluated {e + 1} times after {len(steps)} training epochs")
-        if params is not P[e + 1]:
+        e, j = divmod(len(vals), nb)
+        if e >= E or len(steps) != (e + 1) * nb:
+            raise Mismatch(f"validation batch {len(vals) + 1} is evaluated after {len(steps)} training steps ({nb} batches per epoch)")
+        if params is not P[(e + 1) * nb]:
             raise Mismatch(f"the validation loss of epoch {e + 1} is evaluated at {params!r}, the parameters after that "
-                           f"epoch's training are {P[e + 1]!r}")
+                           f"epoch's training are {P[(e + 1) * nb]!r}")
         check_batch(batch, "val", f"the validation loss of epoch {e + 1}")
-        keys_used.append((f"validation of epoch {e + 1}", key))
+        keys_used.append((f"validation batch {len(vals) + 1}", key))
         vals.append(params)
-        return Ord(perm[e])
+        return Ord(perm[e]) if nb == 1 else NumOrd(10.0 * perm[e] + j)
     ev.stubs = _common_stubs(P, O, STATIC)
     ev.stubs.update({TU + "step": step, TU + "train_val_split": train_val_split, TU + "get_batches": get_batches,
                      "jax.random.permutation": permutation})
@@ -270,7 +272,10 @@ def data_case(prog, perm, max_patience, return_best, with_condition=False, issue
         if repr(k) in seen:
             issues.append(f"the {what} receives the key {k!r} already given to the {seen[repr(k)]}")
         seen.setdefault(repr(k), what)
-    return res[0].params, res[1], P, len(steps), len(vals)
+    if len(steps) % nb or len(vals) % nb:
+        raise Mismatch(f"{len(steps)} training steps and {len(vals)} validation evaluations with {nb} batches per epoch: an "
+                       f"epoch is cut short")
+    return res[0].params, res[1], P, len(steps) // nb, len(vals) // nb
 
 
 def handling_case(prog, E, with_condition, n_batches):
@@ -418,10 +423,13 @@ def decide_data(prog, max_len=None, patiences=None):
                     if (e - 1 - h.index(min(h))) > mp:
                         stop = e
                         break
-                for rb in (True, False):
-                    where = f"validation losses ordered like {list(perm)} (0 = smallest), max_patience={mp}, return_best={rb}"
+                for rb, nb in ((True, 1), (False, 1), (True, 2), (False, 2)):
+                    if nb == 2 and E > 4:
+                        continue
+                    where = (f"validation losses ordered like {list(perm)} (0 = smallest), max_patience={mp}, return_best={rb}"
+                             + (f", {nb} batches per epoch" if nb > 1 else ""))
                     try:
-                        got_p, losses, P, n_steps, n_vals = data_case(prog, perm, mp, rb)
+                        got_p, losses, P, n_steps, n_vals = data_case(prog, perm, mp, rb, nb=nb)
                     except (Unsupported, TypeError, KeyError, Budget):
                         return None
                     except Raised as e_:
@@ -435,12 +443,12 @@ def decide_data(prog, max_len=None, patiences=None):
                                                     + (" (= max_epochs: patience is never exhausted)" if stop == E else ""))
                     ok_rec = isinstance(losses, dict) and set(losses) == {"train", "val"} and all(
                         isinstance(v, list) and len(v) == stop for v in losses.values()) and all(
-                        isinstance(x, Ord) and x.rank == r for x, r in zip(losses["val"], perm))
+                        isinstance(x, Ord) and x.rank == (r if nb == 1 else 10.0 * r + (nb - 1) / 2) for x, r in zip(losses["val"], perm))
                     if not ok_rec:
                         return ("violated", "count", f"{where}: records {losses!r}; expected one train and one validation loss "
                                                      f"per epoch run ({stop})")
                     h = perm[:stop]
-                    want_p = (P[h.index(min(h)) + 1] if stop else P[0]) if rb else P[stop]
+                    want_p = (P[(h.index(min(h)) + 1) * nb] if stop else P[0]) if rb else P[stop * nb]
                     if got_p is not want_p:
                         what = ("the parameters that achieved the minimum validation loss" if rb else "the last parameters")
                         return ("violated", "version" if rb else "select", f"{where}: returns {got_p!r}; {what} are {want_p!r}")
